@@ -3,7 +3,10 @@ import os, sys, subprocess, hashlib, json, time
 
 ROOT = os.path.dirname(os.path.dirname(os.path.abspath(__file__)))
 REPO = os.environ.get("VERIF_REPO", "/repo")
-if REPO == "/repo":
+if os.environ.get("VERIF_OUT"):
+    _OUT = os.environ["VERIF_OUT"]      # private build/work/evidence dirs (parallel development)
+    os.makedirs(_OUT, exist_ok=True)
+elif REPO == "/repo":
     _OUT = ROOT
 else:
     # checks run against a scratch copy (mutation self-tests): keep builds, traces and evidence
